@@ -39,14 +39,14 @@ def main():
     nopen = sum(1 for f in kf if f['status'] == 'open')
     lines += ['', '%d repaired defects, %d open findings.' % (nfix, nopen), '']
     lines += ['### 10.3 Per property: theorems, tie, last recorded run', '',
-              '| property | theorems in Props.v (partial / refuted) | obligations discharged | evaluations (distinct) | known findings hit | wall s (tier) |',
+              '| property | theorems in Props*.v (partial / refuted) | obligations discharged | evaluations (distinct) | known findings hit | wall s (tier) |',
               '|---|---|---|---|---|---|']
     for p in props:
         pid = p['id']
-        pf = os.path.join(V, 'coq', pid, 'Props.v')
+        import glob
         thms = []
-        if os.path.exists(pf):
-            thms = re.findall(r'(?m)^\s*(?:Theorem|Lemma|Corollary)\s+([A-Za-z0-9_\']+)', strip_comments(open(pf).read()))
+        for pf in sorted(glob.glob(os.path.join(V, 'coq', pid, 'Props*.v'))):
+            thms += re.findall(r'(?m)^\s*(?:Theorem|Lemma|Corollary)\s+([A-Za-z0-9_\']+)', strip_comments(open(pf).read()))
         npart = sum(1 for t in thms if t.endswith('_partial') or '_partial_' in t)
         nref = sum(1 for t in thms if 'refuted' in t)
         ev = os.path.join(V, 'evidence', pid + '.json')
